@@ -317,6 +317,14 @@ def check_definite_init(ctx, F):
             continue
         for c in user_ctors:
             b = F.body(c["f"])
+            if c.get("implicit") and (b is None or not (b.get("inits") or [])):
+                # an inherited constructor (`using Base::Base;`): it initialises the base and leaves every member of this record to its default
+                # member initialiser - a member without one stays indeterminate on this way of constructing the object
+                for f in need:
+                    ctx.violation("C10.definite-init", "%s/%s" % (site_base, f["n"]), "%s (%s)" % (name, t.get("loc")),
+                                  "member `%s` of %s has no default member initialiser and the record inherits its base's constructors (%d parameters): "
+                                  "objects built through them carry whatever the storage held" % (f["n"], name, c.get("nparams", 0)), {})
+                continue
             if b is None:
                 continue
             inited = set(i.get("member") for i in (b.get("inits") or []) if i.get("member") and i.get("written"))
